@@ -577,6 +577,9 @@ class Exec:
                     e2 = dict(env)
                     e2[name] = ("list", cur[1] + tuple(more))
                     return cont(e2)
+                if meth in ("close", "flush", "info", "debug", "warning", "error", "exception"):
+                    # resource / logging calls: an effect that does not change what the local stands for
+                    return ("do", self.ev(s.value, env), cont(env))
                 if meth == "append" and cur[0] in ("havoc", "after", "appended") and len(s.value.args) == 1 and not s.value.keywords:
                     e2 = dict(env)
                     e2[name] = ("appended", cur, self.ev(s.value.args[0], env))  # a list of unknown contents, grown by one
